@@ -133,6 +133,30 @@ impl Hist {
                     Err(e) => format!("err:{}", db_err(&e)),
                 }
             }
+            // C12: from here on no file of this process may grow beyond the current length of the event map plus `extra`
+            // bytes (soft RLIMIT_FSIZE, SIGXFSZ ignored): stores that need room fail with an I/O error at whatever step
+            // tries to extend a file
+            "fsizelimit" => {
+                let extra = t.n() as u64;
+                let len = std::fs::metadata(self.dir.path().join("event.map")).map(|m| m.len()).unwrap_or(0);
+                unsafe {
+                    libc::signal(libc::SIGXFSZ, libc::SIG_IGN);
+                    let mut lim = libc::rlimit { rlim_cur: 0, rlim_max: 0 };
+                    libc::getrlimit(libc::RLIMIT_FSIZE, &mut lim);
+                    lim.rlim_cur = len + extra;
+                    libc::setrlimit(libc::RLIMIT_FSIZE, &lim);
+                }
+                "ok".to_string()
+            }
+            "fsizeunlimit" => {
+                unsafe {
+                    let mut lim = libc::rlimit { rlim_cur: 0, rlim_max: 0 };
+                    libc::getrlimit(libc::RLIMIT_FSIZE, &mut lim);
+                    lim.rlim_cur = lim.rlim_max;
+                    libc::setrlimit(libc::RLIMIT_FSIZE, &lim);
+                }
+                "ok".to_string()
+            }
             "reopen" => {
                 let s = self.store.take().unwrap();
                 drop(s);
@@ -268,6 +292,14 @@ impl Hist {
 
 /// `dbhist L<k names> <nops> op ... op ...` — each op starts with a `;` token
 pub fn cmd_dbhist(t: &mut Toks, root: &std::path::Path) -> String {
+    unsafe {
+        let mut lim = libc::rlimit { rlim_cur: 0, rlim_max: 0 };
+        libc::getrlimit(libc::RLIMIT_FSIZE, &mut lim);
+        if lim.rlim_cur != lim.rlim_max {
+            lim.rlim_cur = lim.rlim_max;
+            libc::setrlimit(libc::RLIMIT_FSIZE, &lim);
+        }
+    }
     let names = t.list(&mut |t| t.b());
     let mut h = Hist::new(names, root);
     let mut segs: Vec<String> = Vec::new();
